@@ -249,7 +249,10 @@ def unicode_tables():
         up = set(d['uppercase'])
         lower = {int(k): v for k, v in d['lowercase'].items()}
         fold = {int(k): v for k, v in d.get('unicase_fold', {}).items()}
-        _UNI = {'upper': up, 'upper_r': ranges(up), 'lower': lower, 'fold': fold}
+        _UNI = {'upper': up, 'upper_r': ranges(up), 'lower': lower, 'fold': fold,
+                'ignorable': set(d.get('case_ignorable', [])), 'cased': set(d.get('cased_not_ignorable', []))}
+        _UNI['ignorable_r'] = ranges(_UNI['ignorable'])
+        _UNI['cased_r'] = ranges(_UNI['cased'])
         deltas, multi = {}, {}
         for c, mp in lower.items():
             if c < 0x80:
@@ -777,10 +780,39 @@ def m_to_ascii_lower(I, c, s):
     return StringBuf(out)
 
 
+def _char_class(I, ch):
+    """'ignorable' | 'cased' | 'other' for the final-sigma rule of str::to_lowercase (forks)"""
+    U = unicode_tables()
+    if not U['ignorable']:
+        raise Unsupported('str::to_lowercase: case-ignorable table missing')
+    if isinstance(ch, int):
+        return 'ignorable' if ch in U['ignorable'] else ('cased' if ch in U['cased'] else 'other')
+    ch = zx(ch)
+    if I.ctx.decide(in_ranges(ch, U['ignorable_r'])):
+        return 'ignorable'
+    return 'cased' if I.ctx.decide(in_ranges(ch, U['cased_r'])) else 'other'
+
+
+def _ignorable_then_cased(I, seq):
+    for ch in seq:
+        k = _char_class(I, ch)
+        if k == 'ignorable':
+            continue
+        return k == 'cased'
+    return False
+
+
 @model('str::to_lowercase')
 def m_str_to_lowercase(I, c, s):
+    """str::to_lowercase: per-character mapping except U+03A3, which becomes final sigma U+03C2 at the end of a word"""
+    chars = chars_of(I, sbytes(s))
     out = []
-    for ch in chars_of(I, sbytes(s)):
+    for i, ch in enumerate(chars):
+        is_sigma = (ch == 0x3A3) if isinstance(ch, int) else I.ctx.decide(zx(ch) == 0x3A3)
+        if is_sigma:
+            final = _ignorable_then_cased(I, reversed(chars[:i])) and not _ignorable_then_cased(I, chars[i + 1:])
+            out.extend(encode_char(I, 0x3C2 if final else 0x3C3))
+            continue
         for l in char_lower_seq(I, ch):
             out.extend(encode_char(I, l))
     return StringBuf(out)
@@ -1343,6 +1375,13 @@ def m_vec_capacity(I, c, r):
 @model('Index::index@Vec', 'IndexMut::index_mut@Vec', 'Index::index@slice', 'IndexMut::index_mut@slice')
 def m_vec_index(I, c, r, idx):
     v = vec_of(r)
+    if isinstance(deref_all(idx), Adt):
+        lo, hi = _range_of(idx, len(v.items))
+        if not (isinstance(lo, int) and isinstance(hi, int)):
+            raise Unsupported('symbolic slice bounds')
+        if lo > hi or hi > len(v.items):
+            raise Panic('range end index %d out of range for slice of length %d' % (hi, len(v.items)))
+        return VecVal(v.items[lo:hi])
     if not isinstance(idx, int):
         raise Unsupported('symbolic Vec index')
     if idx >= len(v.items):
@@ -2037,7 +2076,15 @@ def m_phf_get(I, c, mp, key):
     """phf::Map::get with UniCase keys: the entry whose key is UniCase-equal to the query (perfect hashing trusted)"""
     mapv = deref_all(mp)
     entries = vec_of(mapv.fields[2]).items
-    q = sbytes(deref_all(key).fields[0])
+    kv = deref_all(key)
+    if isinstance(kv, (RStr, StringBuf)):
+        # plain &str keys: exact match
+        q = sbytes(kv)
+        for e in entries:
+            if str_eq(I, sbytes(e.fields[0]), q):
+                return Some(Ref(e.fields, 1))
+        return NONE_()
+    q = sbytes(kv.fields[0])
     qf = []
     for ch in chars_of(I, q):
         qf.extend(unicase_fold_seq(I, ch))
